@@ -72,5 +72,31 @@ if a not in s:
     s = s.replace("(filled in as properties land; details in `design/Cxx.md`)", "%s\n%s\n%s" % (a, block, b))
 else:
     s = s[: s.index(a) + len(a)] + "\n" + block + "\n" + s[s.index(b):]
+
+# 12.3 fix commits, 12.4 open known findings (also generated)
+import subprocess
+log = subprocess.run(["git", "-C", os.environ.get("VERIF_REPO", "/repo"), "log", "--reverse", "--format=%h %s", "8897993..HEAD"],
+                     stdout=subprocess.PIPE, text=True).stdout.splitlines()
+fixes = [l for l in log if re.match(r"^[0-9a-f]+ fix:", l)]
+hooks = [l for l in log if re.match(r"^[0-9a-f]+ verif-hooks:", l)]
+by_commit = {}
+for f in findings:
+    for c in re.findall(r"[0-9a-f]{7}", str(f.get("commit", ""))):
+        by_commit.setdefault(c, []).append(f.get("property", "?"))
+b3 = ["| commit | property | subject |", "|---|---|---|"]
+for l in fixes:
+    h, subj = l.split(" ", 1)
+    b3.append("| `%s` | %s | %s |" % (h, ", ".join(sorted(set(by_commit.get(h, [])))) or "-", subj.replace("|", "/")))
+b3.append("")
+b3.append("Hook commits (cargo feature `verif-hooks`, add-only): " + "; ".join("`%s` %s" % tuple(l.split(" ", 1)) for l in hooks))
+b4 = ["| id | property | class tag | require_agree | what fails |", "|---|---|---|---|---|"]
+for f in findings:
+    if f.get("status") == "known":
+        b4.append("| %s | %s | %s | %s | %s |" % (f.get("id"), f.get("property"), f.get("class_tag", "-"), f.get("require_agree", False),
+                                                 str(f.get("what", "")).replace("|", "/")[:400]))
+for tag, blk in (("12.3", "\n".join(b3)), ("12.4", "\n".join(b4))):
+    a, b = "<!-- AUTO:%s begin -->" % tag, "<!-- AUTO:%s end -->" % tag
+    if a in s:
+        s = s[: s.index(a) + len(a)] + "\n" + blk + "\n" + s[s.index(b):]
 open(p, "w").write(s)
-print("DESIGN.md 12.2: %d rows" % (len(lines) - 2))
+print("DESIGN.md 12.2: %d rows; 12.3: %d fix commits; 12.4: %d open findings" % (len(lines) - 2, len(fixes), len(b4) - 2))
